@@ -45,6 +45,12 @@ CHECKS['C20'] = dict(
    technique='deterministic simulation: simulated file system/locale/external actor under the real io stack, seeded chunking + errno fault injection + interruption, in-memory API as reference model, ddmin-minimised replay',
    design='4.5', engine='sim-fs')
 
+CHECKS['C14'] = dict(
+   text='Seeded call histories (3-12 operations) on ONE live document - dumps with arbitrary options (six encodings, spine types/ids, include/exclude as set/list/tuple/single, valid and invalid measure ranges), dump/graph through the simulated OS, the deprecated export() re-using one options object, 27 kinds of queries - interleaved with background traffic on process-global state (other imports clean and damaged, concat, pitch transposition, agnostic conversion, ExportOptions(), to_transposed of another document, long-lived importers). After EVERY operation: the normalised result equals that of the same operation on a copy imported at that moment and never touched before; the deep structural snapshot of the live document equals the one taken after import; the module constants equal their values at the start of the run; reused argument objects are unchanged; at time 0 and at the end a fixed 15-item battery on two imports must agree. Faults: calls built to raise, interruption at a seeded kernpy line event (SimInterrupt / MemoryError, ~35% of the runs), I/O faults on dump/graph targets. Exploration over histories; expected silent on a correct tree and earns its keep on mutants.',
+   note='Trusted: kernpy itself on a fresh copy as the reference path (a read-only call that is consistently wrong is invisible); attributes whose name starts with "_" are outside the snapshot; interrupted calls only have to raise; no thread interleavings (kernpy promises no thread safety, C14 does not quantify over schedules).',
+   technique='deterministic simulation: seeded read-only call histories vs freshly imported replica, deep-snapshot/constant/argument invariants after every step, interruption and I/O faults, ddmin-minimised replay',
+   design='4.2', engine='sim-history')
+
 PENDING = {}
 
 
